@@ -702,6 +702,13 @@ func generateVictims(r *rand.Rand, profile string) *Scenario {
 			}
 			sc.Pods = append(sc.Pods, p)
 		}
+		// an elastic job that is at the same time a victim candidate (running pods above its minimum) and a
+		// claimant (pods still pending): later actions of the cycle see it in both roles
+		if profile == "elastic" && chance(0.5) {
+			for i := 0; i < pick(1, 1, 2); i++ {
+				sc.Pods = append(sc.Pods, Pod{Name: fmt.Sprintf("j%d-p%d", k, size+i+1), Job: k, Cpu: 500, Mem: 500, Gpu: 1, Phase: "P"})
+			}
+		}
 		free -= size
 	}
 	// claimants: reclaimers in qb, optionally a higher-priority preemptor in qa
